@@ -41,6 +41,17 @@ CHECKS["C05"] = dict(
     technique="Coq refinement proof + model/implementation correspondence",
     ref="5/C05")
 
+CHECKS["C08"] = dict(
+    text="Machine-checked proofs (Coq): the push-data walk yields exactly the pushes of the well-formed item prefix of "
+         "any script for all item lists and all tails (round trip against a declarative item grammar), truncated "
+         "tails contribute nothing, the filter is equivalent to its declarative meaning for all oracles, "
+         "subscribe/unsubscribe are multiset inverse, raw data = its hash. Correspondence check runs the real "
+         "Node.IsRelevant/Subscribe* on generated scripts (all push forms, malformed tails) and real contract scripts.",
+    note="Trusted: Coq kernel, hand-written model (incl. the model of the dependency's ParsePushDataScript) validated "
+         "by correspondence; RIPEMD160.SHA256 and the Tokenized action parser are oracles supplied as tables.",
+    technique="Coq proof over a parser model + model/implementation correspondence",
+    ref="5/C08")
+
 NOT_APPLICABLE = {}
 
 
